@@ -245,7 +245,7 @@ def _merge_const(x, y):
     sx = x[1] if x[0] == "cset" else frozenset({x})
     sy = y[1] if y[0] == "cset" else frozenset({y})
     s = sx | sy
-    if len(s) > 8 or not all(c[0] in ("c", "enum", "type") for c in s):
+    if len(s) > 8 or not all(c[0] in ("c", "enum", "type", "meth", "bmeth") for c in s):
         return None
     if any(c[0] == "c" and not isinstance(c[1], (str, type(None), bool, int)) for c in s):
         return None
@@ -337,6 +337,9 @@ def elem_of(v: AVal) -> AVal:
     if v.is_json:
         parts.append(AVal(types=frozenset({"json"}), org=deeper(v.org), taint=v.taint))
     elif not parts:
+        if v.types and v.types <= {"list", "tuple", "dict", "set", "iter"} and not v.org and v.taint == 0 and not v.nonempty:
+            # a container created empty in the analysed activation and never extended: no elements
+            return BOTTOM
         if v.types & {"str"}:
             parts.append(AVal(types=frozenset({"str"}), taint=v.taint, org=frozenset()))
         elif v.types & {"range"}:
